@@ -1143,10 +1143,27 @@ impl<C: Suite> Sim<C> {
             Ok(kp) => {
                 let lost = self.lost_kp.get(&me).cloned();
                 self.history.push(Record::Repaired { node: me, inst, kp: kp.clone(), lost });
+                // a participant with a NEW identifier publishes its verifying share: the application
+                // extends the public key package (the library offers no call for this)
+                let mut pk = pk;
+                let mut announce = None;
+                if !pk.verifying_shares().contains_key(&id) {
+                    let mut vs = pk.verifying_shares().clone();
+                    vs.insert(id, *kp.verifying_share());
+                    pk = PublicKeyPackage::<C>::new(vs, *pk.verifying_key(), pk.min_signers());
+                    announce = Some(enc(self.scen.wire, &pk));
+                }
                 let st = self.parts[me].as_mut().unwrap();
                 st.repair.get_mut(&inst).unwrap().done = true;
                 st.kp = Some(kp);
                 st.pk = Some(pk);
+                if let Some(b) = announce {
+                    let hub = self.hub_idx();
+                    match b {
+                        Ok(b) => self.send(inst, Kind::PubKeys, me, hub, b),
+                        Err(e) => self.err(me, inst, "encode PublicKeyPackage", e),
+                    }
+                }
             }
         }
     }
@@ -1358,7 +1375,10 @@ impl<C: Suite> Sim<C> {
                 remaining.iter().all(|p| part(*p).map(|s| s.refreshed.contains(&inst)).unwrap_or(false))
                     && self.hub.as_ref().and_then(|h| h.pk_from.get(&inst)).map(|s| s.len() == remaining.len()).unwrap_or(false)
             }
-            Inst::Repair { target, .. } => part(*target).and_then(|s| s.repair.get(&inst)).map(|r| r.done).unwrap_or(false),
+            Inst::Repair { target, .. } => {
+                part(*target).and_then(|s| s.repair.get(&inst)).map(|r| r.done).unwrap_or(false)
+                    && (*target < n || self.hub.as_ref().and_then(|h| h.pk_from.get(&inst)).map(|s| s.contains(target)).unwrap_or(false))
+            }
         }
     }
 
